@@ -16,8 +16,10 @@ import sys
 import time
 
 VERIF = '/verif'
-REPO = '/repo'
-BUILD = os.path.join(VERIF, 'build')
+# VERIF_REPO / VERIF_BUILD: development-time override used for mutation experiments in a scratch
+# worktree (never by a registered command: those always build from /repo's working tree)
+REPO = os.environ.get('VERIF_REPO') or '/repo'
+BUILD = os.environ.get('VERIF_BUILD') or os.path.join(VERIF, 'build')
 SPEC = os.path.join(VERIF, 'spec')
 JAR = '/opt/veriftools/tla/tla2tools.jar:/opt/veriftools/tla/CommunityModules-deps.jar'
 NCPU = os.cpu_count() or 4
@@ -116,7 +118,8 @@ class Check:
         self.details = {'mc_runs': [], 'trace_runs': [], 'replay_runs': []}
         self.assumptions = []
         self.extra_cov = {}
-        self.work = os.path.join(BUILD, 'run', prop)
+        self.tag = '%s_%d' % (prop, os.getpid())   # concurrent runs of the same check must not collide
+        self.work = os.path.join(BUILD, 'run', self.tag)
         shutil.rmtree(self.work, ignore_errors=True)
         os.makedirs(self.work, exist_ok=True)
         self.replay_dir = os.path.join(BUILD, 'replay', prop)
@@ -138,7 +141,7 @@ class Check:
         with open(os.path.join(BUILD, '.lock.' + flavour), 'w') as lk:
             fcntl.flock(lk, fcntl.LOCK_EX)
             tg = ' '.join('%s/%s/bin/%s' % (BUILD, flavour, t) for t in targets)
-            p = sh('make -s -j%d -C %s/harness FLAVOUR=%s REPO=%s %s' % (NCPU, VERIF, flavour, REPO, tg),
+            p = sh('make -s -j%d -C %s/harness FLAVOUR=%s REPO=%s BUILDROOT=%s %s' % (NCPU, VERIF, flavour, REPO, BUILD, tg),
                    timeout=1500)
             if p.returncode != 0:
                 raise Infra('build failed:\n' + p.stdout[-4000:])
@@ -164,7 +167,7 @@ class Check:
     # ---------------------------------------------------------------- model checking
     def mc(self, module, cfg, label=None, workers=None, timeout=1200, must_hold=True, xmx=None,
            coverage=None, env=None, extra=None):
-        label = label or ('%s_%s' % (self.prop, cfg.replace('.cfg', '')))
+        label = '%s_%s' % (self.tag, label or cfg.replace('.cfg', ''))
         workers = workers or NCPU
         coverage = self.thorough if coverage is None else coverage
         r = run_tlc(module, cfg, label, workers=workers, timeout=timeout, xmx=xmx, coverage=coverage,
@@ -194,7 +197,7 @@ class Check:
         """Validate ndjson traces (impl -> spec).  One TLC process per file, `par` at a time.
         A rejected trace is re-run once; only a repeated rejection counts."""
         def one(f):
-            label = '%s_tr_%s' % (self.prop, os.path.basename(f).replace('.ndjson', ''))
+            label = '%s_tr_%s' % (self.tag, os.path.basename(f).replace('.ndjson', ''))
             e = {'TRACE': f}
             if env:
                 e.update(env)
@@ -270,6 +273,14 @@ class Check:
                 return True
         return False
 
+    def cleanup(self):
+        shutil.rmtree(self.work, ignore_errors=True)
+        tl = os.path.join(BUILD, 'tlc')
+        if os.path.isdir(tl):
+            for d in os.listdir(tl):
+                if d.startswith(self.tag + '_'):
+                    shutil.rmtree(os.path.join(tl, d), ignore_errors=True)
+
     def sample(self, obj):
         if len(self.samples) < 12:
             self.samples.append(obj)
@@ -306,11 +317,12 @@ class Check:
               'coverage': cov, 'assumptions': self.assumptions, 'wall_s': round(wall, 2),
               'violations': len(self.violations)}
         os.makedirs(os.path.join(VERIF, 'evidence'), exist_ok=True)
-        tmp = os.path.join(VERIF, 'evidence', self.prop + '.json.tmp')
+        tmp = os.path.join(VERIF, 'evidence', '%s.json.tmp%d' % (self.prop, os.getpid()))
         with open(tmp, 'w') as f:
             json.dump(ev, f, indent=1)
             f.write('\n')
         os.replace(tmp, os.path.join(VERIF, 'evidence', self.prop + '.json'))
+        self.cleanup()
         if self.violations:
             for sig, replay, msg in self.violations[:20]:
                 print('VIOLATION property=%s replay=%s' % (self.prop, replay))
